@@ -29,6 +29,7 @@ SCENARIOS = [
     ("S8-two-args", [("call", "f_str", 1), ("call", "f_str", 2)]),
     ("S9-none-and-part-share", [("call", "f_none", 1), ("call", "f_same_a", 1), ("call", "f_part", 1)]),
     ("S10-oversize-for-cache", [("call", "f_big", 1)]),
+    ("S11-partition-merge", [("call", "f_child", 1)]),
 ]
 
 
